@@ -15,11 +15,14 @@ struct CodecvtCtl
 {
   long window = 0;    // 0: unlimited; else output units offered to the real facet per call
   long error_at = -1; // -1: never; else report error when this many input units have been consumed
+  long stall_at = -1; // -1: never; else, once this many input units have been consumed, every call
+                      // returns `partial` without progress (the rest is an incomplete sequence)
   // observations
   long calls = 0;
   long partials = 0;
   long consumed = 0;
   bool error_fired = false;
+  bool stalled = false; // a stall has been reported at least once
   bool zero_progress_partial = false; // a partial result without any progress was returned
   void reset()
   {
@@ -55,6 +58,25 @@ protected:
     }
     From const *fe = from_end;
     bool error_here = false;
+    bool stall_here = false;
+    if (c.stall_at >= 0)
+    {
+      long const left = c.stall_at - c.consumed;
+      if (left <= 0)
+      {
+        from_next = from;
+        to_next = to;
+        c.stalled = true;
+        ++c.partials;
+        c.zero_progress_partial = true;
+        return base::partial;
+      }
+      if (left < from_end - from)
+      {
+        fe = from + left;
+        stall_here = true;
+      }
+    }
     if (c.error_at >= 0)
     {
       long const left = c.error_at - c.consumed;
@@ -80,6 +102,12 @@ protected:
     }
     result r = call(from, fe, from_next, to, te, to_next);
     c.consumed += from_next - from;
+    if (r == base::ok && stall_here && from_next == fe)
+    {
+      // everything before the stall position has been converted; the rest is "incomplete"
+      ++c.partials;
+      return base::partial;
+    }
     if (r == base::ok && error_here && from_next == fe)
     {
       // everything before the error position has been converted
